@@ -591,6 +591,58 @@ def index_stream(ctx, script):
     return len(lits)
 
 
+def product_stream(ctx, script, rng, ncases):
+    """from_product_state (integer local states) against Model/MpsProduct.v: legs, qtotal, block of every tensor, total charge"""
+    cases = []
+    fams = [f for f in sorted(G.FAMILIES) if f != 'none']
+    for n in range(ncases):
+        fam = fams[n % len(fams)] if n < 2 * len(fams) else rng.choice(fams)
+        L = rng.randint(1, 7)
+        kinds = [rng.choice(sorted(G.FAMILIES[fam])) for _ in range(L)]
+        dims = [G.std_table(k)[0] for k in kinds]
+        nq = len(G.FAMILY_MOD[fam])
+        cases.append({'kinds': kinds, 'p': [rng.randrange(d) for d in dims], 'bc': rng.choice(['finite', 'infinite']),
+                      'chargeL': None if rng.random() < 0.3 else [rng.randint(-3, 5) for _ in range(nq)]})
+    r, err = common.run_impl(script, {'kind': 'product', 'cases': cases})
+    if err:
+        ctx.fail('correspondence', 'product-state runner failed: ' + err[-600:], None)
+        return 0
+    lits, meta = [], []
+    for c, o in zip(cases, r):
+        fin = c['bc'] != 'infinite'
+        info = {'stream': 'product', 'case': c, 'impl': {k: o[k] for k in ('mod', 'total', 'chi')}}
+        L = len(c['kinds'])
+        # oracle: documented total charge = sum of the charges of the chosen states; trivial bonds; one entry 1 per tensor
+        mod = o['mod']
+        want = [0] * len(mod)
+        for srow in o['sites']:
+            qv = srow[1][srow[3]]
+            want = [a + srow[2] * b for a, b in zip(want, qv)]
+        want = [w if m == 1 else w % m for w, m in zip(want, mod)]
+        if o['total'] != want:
+            ctx.fail('oracle', 'from_product_state: get_total_charge %s, sum of the state charges %s' % (o['total'], want), info,
+                     match_key='C07:product:total-charge')
+        if any(x != 1 for x in o['chi']):
+            ctx.fail('oracle', 'from_product_state: bond dimensions %s' % o['chi'], info, match_key='C07:product:chi')
+        for b in o['B']:
+            if b[2] != [1] or b[5] != [1] or len(b[7]) != 1 or sorted(b[8])[-1] != 1.0 or sum(b[8]) != 1.0:
+                ctx.fail('oracle', 'from_product_state: tensor is not a single entry 1 with trivial bonds', info,
+                         match_key='C07:product:tensor')
+        ctx.count('product', [c['kinds'], c['p'], c['bc'], c['chargeL']], nontrivial=L > 1)
+        sites = [((([common.Nat(x) for x in s_[0]], s_[1], s_[2])), common.Nat(s_[3]), common.Nat(s_[4])) for s_ in o['sites']]
+        obs = [(b[0], b[1], b[3], b[4], b[6], [common.Nat(x) for x in (b[7][0] if len(b[7]) == 1 else [])]) for b in o['B']]
+        chl = c['chargeL'] if c['chargeL'] is not None else [0] * len(mod)
+        lits.append(coq_lit((fin, mod, chl, sites, obs, o['total'])))
+        meta.append(info)
+    bad, err = common.coq_failing_indices('c07_product', ['Base.Prelude', 'Model.Charge', 'Model.Tensor', 'Model.MpsProduct',
+                                                          'Model.MpsProductCheck'], 'check_product_case', lits)
+    if err:
+        ctx.fail('correspondence', 'model evaluation failed: ' + err[-500:], None)
+    for b in bad[:3]:
+        ctx.fail('correspondence', 'Model/MpsProduct.v and MPS.from_product_state disagree on legs / qtotal / block / total charge', meta[b])
+    return len(lits)
+
+
 def main(ctx):
     rng = ctx.rng
     script = 'c07_impl.py'
@@ -600,6 +652,8 @@ def main(ctx):
     for p in G.check_site_tables(SI):
         ctx.fail('correspondence', 'site table of harness/mps_gen.py differs from the site class: ' + p, None)
     ncorr = index_stream(ctx, script) or 0
+    import random as _random
+    ncorr += product_stream(ctx, script, _random.Random(ctx.seed * 7919 + 707), ctx.pick(60, 400)) or 0
     # ---------------- cases
     nfin = ctx.pick(150, 1500) * mult
     ninf = ctx.pick(60, 600) * mult
